@@ -122,6 +122,29 @@ structure Cfg where
   limit : Nat := 0
 deriving Repr
 
+/-- a configuration as written (`Config`), before validation; timeout in microseconds, possibly negative -/
+structure RawCfg where
+  sbs : Nat
+  max : Nat
+  timeout : Int
+  keys : List String
+  limit : Nat
+deriving Repr
+
+def nodupB : List String → Bool
+  | [] => true
+  | a :: l => !l.contains a && nodupB l
+
+/-- `Config.Validate()`: `send_batch_max_size` is 0 or at least `send_batch_size`; no metadata key twice (compared
+case-insensitively); `timeout` not negative.  Every theorem about the processor takes the configuration's validity as a
+hypothesis; this definition is tied to the real `Validate()` by exact differential on configurations drawn from the RAW
+space on every run. -/
+def validCfg (r : RawCfg) : Bool :=
+  !(decide (r.max > 0) && decide (r.max < r.sbs)) && nodupB (r.keys.map String.toLower) && decide (r.timeout ≥ 0)
+
+def RawCfg.toCfg (r : RawCfg) : Cfg :=
+  { sbs := r.sbs, max := r.max, timeout := r.timeout.toNat, nkeys := r.keys.length, limit := r.limit }
+
 /-- `startLoop` creates the timer only `if timeout != 0 && sendBatchSize != 0` -/
 def hasTimer (c : Cfg) : Bool := c.timeout != 0 && c.sbs != 0
 
